@@ -412,6 +412,11 @@ fn check_main(args: &[String]) {
         println!("note: violation of another property seen while exploring ({}x): {} -- it is reported by that property's own check", n, k);
     }
 
+    if std::env::var("VERIF_LIST_VIOLATIONS").is_ok() {
+        for (r, v) in target_viol.iter().take(400) {
+            println!("LIST seed={} {} | {}", r["seed"], v["class"].as_str().unwrap_or(""), v["detail"].as_str().unwrap_or("").chars().take(300).collect::<String>());
+        }
+    }
     let mut exit_code = 0;
     let mut replay_paths = Vec::new();
     if !target_viol.is_empty() {
